@@ -454,6 +454,14 @@ func Files(j *job.Job, s *job.Sink) {
 	defer os.Chdir(start)
 	for c := j.Start; c < j.Start+j.Count; c++ {
 		r := prng.For(j.Seed, "C13", "files", c)
+		// the module looked for: foo, or (one layout in four) a name with a dot in it, which
+		// is a legal module name and must not be taken for a file name with an extension
+		base := "foo"
+		if r.Intn(4) == 0 {
+			base = []string{"acme.types", "foo.v2", "a.b.c"}[r.Intn(3)]
+		}
+		fooize := func(x string) string { return strings.ReplaceAll(x, "foo", base) }
+		candName := regexp.MustCompile(`^` + regexp.QuoteMeta(base) + `(@\d{4}-\d{2}-\d{2})?\.yang$`)
 		root, _ := os.MkdirTemp(start, "layout")
 		dirs := []string{"cwd", "d1", "d2", "d3"}[:2+r.Intn(3)]
 		type cand struct{ dir, file, marker string }
@@ -476,8 +484,8 @@ func Files(j *job.Job, s *job.Sink) {
 				os.MkdirAll(filepath.Join(root, d0, "empty"), 0o755)
 				if r.Intn(2) == 0 {
 					os.MkdirAll(filepath.Join(root, d0, "m0"), 0o755)
-					os.WriteFile(filepath.Join(root, d0, "m0", "xfoo.yang"), []byte(mod("xfoo", "near", "")), 0o644)
-					os.WriteFile(filepath.Join(root, d0, "m0", "foo.yang.orig"), []byte(mod("foo", "near", "")), 0o644)
+					os.WriteFile(filepath.Join(root, d0, "m0", "x"+base+".yang"), []byte(mod("x"+base, "near", "")), 0o644)
+					os.WriteFile(filepath.Join(root, d0, "m0", base+".yang.orig"), []byte(mod(base, "near", "")), 0o644)
 				}
 			}
 			add := func(fn, modname, rev string, isCand bool) {
@@ -501,18 +509,18 @@ func Files(j *job.Job, s *job.Sink) {
 				}
 			}
 			if r.Intn(3) == 0 {
-				add("foo.yang", "foo", "", true)
+				add(base+".yang", base, "", true)
 			}
 			for q := r.Intn(3); q > 0; q-- {
 				date := fmt.Sprintf("20%02d-%02d-%02d", 10+r.Intn(15), 1+r.Intn(12), 1+r.Intn(28))
 				dup := false
 				for _, x := range files[d0] {
-					if x.file == "foo@"+date+".yang" {
+					if x.file == base+"@"+date+".yang" {
 						dup = true
 					}
 				}
 				if !dup {
-					add("foo@"+date+".yang", "foo", date, true)
+					add(base+"@"+date+".yang", base, date, true)
 				}
 			}
 			// near misses
@@ -520,12 +528,12 @@ func Files(j *job.Job, s *job.Sink) {
 				// names that sort between the dated candidates of the directory
 				{"foo@2015-6-15.yang", "foo"}, {"foo@2017-03-01.yang.orig", "foo"}, {"foo@2016-01-01", "foo"}, {"foo@2018-01-01.yang~", "foo"}, {"foo@2014-12-31T00.yang", "foo"}, {"foo@2019-01-01-draft.yang", "foo"}, {"foo@2012.yang", "foo"}} {
 				if r.Intn(3) == 0 {
-					add(nm[0], nm[1], "", false)
+					add(fooize(nm[0]), fooize(nm[1]), "", false)
 				}
 			}
 			if r.Intn(6) == 0 && len(files[d0]) == 0 {
-				os.MkdirAll(filepath.Join(root, d, "foo.yang"), 0o755) // a directory named like the file
-				layout = append(layout, map[string]string{"dir": d, "file": "foo.yang/", "marker": "(directory)"})
+				os.MkdirAll(filepath.Join(root, d, base+".yang"), 0o755) // a directory named like the file
+				layout = append(layout, map[string]string{"dir": d, "file": base + ".yang/", "marker": "(directory)"})
 			}
 		}
 		// expectation: first directory (cwd first) holding a candidate
@@ -537,7 +545,7 @@ func Files(j *job.Job, s *job.Sink) {
 			best := files[d][0]
 			exact := false
 			for _, x := range files[d] {
-				if x.file == "foo.yang" {
+				if x.file == base+".yang" {
 					best, exact = x, true
 				}
 			}
@@ -583,17 +591,17 @@ func Files(j *job.Job, s *job.Sink) {
 		evs := hooklog.Collect(func() {
 			switch via {
 			case "read":
-				err = ms.Read("foo")
+				err = ms.Read(base)
 			case "getmodule":
 				// the convenience entry point: read if absent, process, convert
-				e, errs := ms.GetModule("foo")
+				e, errs := ms.GetModule(base)
 				if len(errs) > 0 {
 					err = errs[0]
-				} else if e == nil || e.Name != "foo" {
+				} else if e == nil || e.Name != base {
 					err = fmt.Errorf("GetModule returned %v without an error", e)
 				}
 			default:
-				if err = ms.Parse("module imp { namespace \"urn:imp\"; prefix i; import foo { prefix f; } }", "imp.yang"); err == nil {
+				if err = ms.Parse("module imp { namespace \"urn:imp\"; prefix i; import "+base+" { prefix f; } }", "imp.yang"); err == nil {
 					if errs := ms.Process(); len(errs) > 0 {
 						err = errs[0]
 					}
@@ -618,7 +626,7 @@ func Files(j *job.Job, s *job.Sink) {
 		}
 		for _, o := range opened {
 			if !candName.MatchString(filepath.Base(o)) {
-				viol("trace-opened-a-foreign-file", fmt.Sprintf("opened %s while looking for module foo", o))
+				viol("trace-opened-a-foreign-file", fmt.Sprintf("opened %s while looking for module %s", o, base))
 			}
 		}
 		switch {
@@ -630,7 +638,7 @@ func Files(j *job.Job, s *job.Sink) {
 			viol("trace-file-reads", fmt.Sprintf("opened %v though no directory holds a candidate", opened))
 		}
 		got := ""
-		if m := ms.Modules["foo"]; m != nil && len(m.Leaf) > 0 {
+		if m := ms.Modules[base]; m != nil && len(m.Leaf) > 0 {
 			got = m.Leaf[0].Name
 			// positions name the file that was read (C16): the module statement and the leaf
 			if len(opened) == 1 {
@@ -649,7 +657,7 @@ func Files(j *job.Job, s *job.Sink) {
 			viol("wrong-file", fmt.Sprintf("loaded marker %q (err %v), expected %q", got, err, want))
 		}
 		for n := range ms.Modules {
-			if !strings.HasPrefix(n, "foo") && n != "imp" || strings.HasPrefix(n, "foobar") || strings.HasPrefix(n, "foo-x") {
+			if !strings.HasPrefix(n, base) && n != "imp" || strings.HasPrefix(n, base+"bar") || strings.HasPrefix(n, base+"-x") {
 				viol("differently-named-module", "loaded "+n)
 			}
 		}
